@@ -116,11 +116,12 @@ def short_file(desc):
 # ------------------------------------------------------------------ disk files
 
 def dsk_file(lengths=DSK_LENGTHS, max_uniform=6000, big_weight=1, big=40000):
-    kind = st.sampled_from(["ml", "ml", "basic", "ascii", "ascii_data", "ml_ascii"])
+    # file type / ASCII flag pairs: 2/00 ml, 0/00 basic, 0/FF ascii, 1/FF ascii_data, 2/FF ml_ascii, 1/00 data, 3/00 text, 3/FF text_ascii
+    kind = st.sampled_from(["ml", "ml", "ml", "basic", "ascii", "ascii_data", "ml_ascii", "data", "text", "text_ascii"])
     return st.builds(
         lambda name, ext, kind, load, exe, data: dict(
             name=name, ext=ext, kind=kind,
-            ftype={"ml": 2, "basic": 0, "ascii": 0, "ascii_data": 1, "ml_ascii": 2}[kind],
+            ftype={"ml": 2, "basic": 0, "ascii": 0, "ascii_data": 1, "ml_ascii": 2, "data": 1, "text": 3, "text_ascii": 3}[kind],
             dtype=0xFF if "ascii" in kind else 0x00,
             load=load if kind.startswith("ml") else 0, exec=exe if kind.startswith("ml") else 0, data=data),
         dsk_name, dsk_ext, kind, word, word, data_desc(lengths, max_uniform=max_uniform, big=big, big_weight=big_weight))
